@@ -82,6 +82,17 @@ def matrix_phase(prop, tier, wd, verdict, select=None, min_served=20, min_refuse
         if nbin != len(bcalls) - 1:
             raise Inconclusive("the dirk binary answered %d of %d calls" % (nbin, len(bcalls) - 1))
         evs_all += evs
+    # the two clients send the SAME listings at the same time (in-process and against the binary): whatever a response CONTAINS
+    # is judged like any other cell - sharing work between identical requests must not share the answer across identities
+    race_ms = 1500 if tier == "quick" else 6000
+    for bin_ in (False, True):
+        evs, rc, err = run_apidrv(dict(calls=[], list_race_ms=race_ms), wd, "%s_race_%d" % (prop.lower(), bin_), dirk=build_dirk() if bin_ else None)
+        if rc != 0:
+            raise Inconclusive("apidrv (concurrent identical listings) exited %s: %s" % (rc, err[-400:]))
+        n = [e["responses"] for e in evs if e["ev"] == "ListRace"]
+        if not n or n[0] < 200:
+            raise Inconclusive("concurrent identical listings: only %s responses" % n)
+        evs_all += evs
     inv = {v: k for k, v in DIAL.items()}
     lines = []
     served = refused = 0
@@ -109,7 +120,8 @@ def matrix_phase(prop, tier, wd, verdict, select=None, min_served=20, min_refuse
             ln = lines[pos - 2] if pos >= 2 else {}
             verdict.violation("%s:%s:%s" % (tr.violated, ln.get("cred"), ln.get("method")),
                               "call over real TLS %s violates %s" % (ln, tr.violated), dict(call=ln, api=True, server_mode=ln.get("server", "bare"), calls=[dict(id="setup", cred="valid-signer-2", method="DKG.Prepare", target="c1", epoch=0)] +
-                                   [c for c in calls_by_id.values() if c["id"] == ln.get("id")], invariant=tr.violated))
+                                   [c for c in calls_by_id.values() if c["id"] == ln.get("id")], invariant=tr.violated,
+                                   list_race_ms=3 * race_ms if str(ln.get("id", "")).startswith("race-") else 0))
         else:
             raise Inconclusive("ApiTrace validation failed: %s %s" % (tr.violated, tr.error))
     return dict(states=r.distinct + tr.distinct, transitions=len(cells) + tr.generated, lines=lines, cells=len(cells), served=served, refused=refused, modes=modes)
@@ -169,7 +181,7 @@ def replay(prop, path):
                 return 1
             return 0
         binary = any(str(c.get("id", "")).startswith("bin-") for c in obj["calls"])
-        evs, rc, err = run_apidrv(dict(calls=obj["calls"], server_mode=obj.get("server_mode", "bare")), wd, "replay", dirk=build_dirk() if binary else None)
+        evs, rc, err = run_apidrv(dict(calls=obj["calls"], server_mode=obj.get("server_mode", "bare"), list_race_ms=obj.get("list_race_ms", 0)), wd, "replay", dirk=build_dirk() if binary else None)
         if rc != 0:
             print(err[-400:])
             return 2
